@@ -7,7 +7,7 @@ from vp.props.c05_gen import (BOOL, BYTES, FLOAT, INT, STR, Cls, Scope, Sig, TC,
 from vp.props.c05_stmt import StmtGen, indent
 
 HEADER = """import math
-from typing import Callable, ClassVar, Final, Iterator, Optional
+from typing import Callable, ClassVar, Final, Iterator, Optional, Sequence
 from mypy_extensions import i64, trait
 from c05rt import probe, tick
 """
@@ -579,6 +579,52 @@ class ProgGen(StmtGen):
         self.features.add("dispatch")
         return sig
 
+    STAR_FORMS = [("{a}, *{b}", 1, "ab"), ("*{a}, {b}", 1, "ba"), ("{a}, *{b}, {c}", 2, "abc"), ("{a}, *{b}, {c}, {d}", 3, "abcd"), ("*{a}, {b}, {c}, {d}", 3, "abcd")]
+
+    def gen_starunpack(self, full: bool) -> Sig:
+        """Starred unpacking as assignment target and as for-loop target, from list / tuple / str / generator /
+        list-comprehension sources; the driver passes sequences of length 0..6 with distinct items, so both the
+        position of every item and the too-short ValueError are compared."""
+        gname = self.new_func_name("sgen")
+        self.emit(["def %s(n: int) -> Iterator[int]:" % gname, "    for i_ in range(n):", "        tick()", "        yield i_ * 3 + 1"], gname)
+        gsig = Sig(gname, [("n", INT, "pos", None)], None, self.next_rank(), self.cur_module)
+        gsig.is_gen, gsig.yield_t, gsig.tag = True, INT, "generator"
+        self.funcs.append(gsig)
+        self.func_tags[gname] = "generator"
+        name = self.new_func_name("su")
+        params = [("xs", TL(INT), "pos", None), ("s", STR, "pos", None), ("t", TV(INT), "pos", None), ("n", INT, "pos", None), ("q", STR, "pos", None)]
+        sig = Sig(name, params, INT, self.next_rank(), self.cur_module)
+        sig.tag = "starunpack"
+        sources = [("list", "xs", "int"), ("tuple", "t", "int"), ("str", "q", "str"), ("generator", "%s(n)" % gname, "int"), ("listcomp", "[x_ * 2 for x_ in xs]", "int"), ("slice", "xs[1:]", "int"), ("list-of-str", "s.split(',')", "str"), ("list(str)", "list(s)", "str")]
+        pairs = [(f, src) for f in range(len(self.STAR_FORMS)) for src in sources[:4]]
+        if not full:
+            self.rnd.shuffle(pairs)
+            pairs = pairs[:8]
+        pairs += [(self.rnd.randrange(len(self.STAR_FORMS)), src) for src in sources[4:]]
+        body = ["tick()", "cnt = 0"]
+        for fi, (kind_, src, et) in pairs:
+            pat, need, _ = self.STAR_FORMS[fi]
+            names = {k: self.fresh("u") for k in "abcd"}
+            target = pat.format(**names)
+            used = [names[k] for k in "abcd" if "{%s}" % k in pat]
+            tag = "star-unpack:%s:%s" % (pat.format(a="a", b="b", c="c", d="d").replace(" ", ""), kind_)
+            body += ["try:"] + indent(["tick()", "%s = %s" % (target, src), self.probe_stmt(tag, "(%s)" % ", ".join(used)), "cnt += 1"]) + ["except ValueError:"] + indent([self.probe_stmt(tag + ":short", "cnt")])
+        # for-loop targets
+        for fi in (range(len(self.STAR_FORMS)) if full else [self.rnd.randrange(len(self.STAR_FORMS))]):
+            pat, need, _ = self.STAR_FORMS[fi]
+            names = {k: self.fresh("u") for k in "abcd"}
+            used = [names[k] for k in "abcd" if "{%s}" % k in pat]
+            tag = "star-unpack-for:%s" % pat.format(a="a", b="b", c="c", d="d").replace(" ", "")
+            src = self.ch(["[xs, xs[1:], list(t)]", "[xs[:4], xs]", "[list(t), xs[::-1]]"]) if self.p(0.7) else "[q, q[1:]]"
+            body += ["try:"] + indent(["for %s in %s:" % (pat.format(**names), src)] + indent(["tick()", self.probe_stmt(tag, "(%s)" % ", ".join(used)), "cnt += 1"])) + ["except ValueError:"] + indent([self.probe_stmt(tag + ":short", "cnt")])
+        body.append("return cnt")
+        # q is declared Sequence[str] and receives a str: mypy forbids unpacking a value declared `str`
+        self.emit(["def %s(xs: list[int], s: str, t: tuple[int, ...], n: int, q: Sequence[str]) -> int:" % name] + indent(body), name)
+        self.funcs.append(sig)
+        self.func_tags[name] = "starunpack"
+        self.features.add("star-unpack")
+        return sig
+
     def gen_i64(self) -> Sig:
         name = self.new_func_name("nat")
         params = [("n", INT, "pos", None), ("xs", TL(INT), "pos", None)]
@@ -660,6 +706,7 @@ class ProgGen(StmtGen):
         for cn in traits + ["A0"]:
             if self.concrete_subclasses(cn):
                 self.gen_dispatch(cn)
+        self.gen_starunpack(full=True)
         self.gen_module_defs(max(2, int(r.randrange(4, 8) * self.size)))
         # ---- module mb
         self.cur_module = "mb"
@@ -673,6 +720,7 @@ class ProgGen(StmtGen):
         for cn in traits + ["A0", "B0"]:
             if self.concrete_subclasses(cn):
                 self.gen_dispatch(cn)
+        self.gen_starunpack(full=False)
         self.gen_module_defs(max(3, int(r.randrange(6, 11) * self.size)))
         ma_src = HEADER + "\n".join(self.lines["ma"]) + "\n"
         # enum / dataclass imports were inserted at the top of lines: keep them before use
@@ -780,6 +828,43 @@ class ProgGen(StmtGen):
             parts.append("%s=%s" % (pn, v) if pk == "kwonly" else v)
         return [], ", ".join(parts), []
 
+    def bad_calls(self, params) -> list[tuple[str, str]]:
+        """Argument lists that CPython refuses to BIND (arity / keyword errors, every value well typed):
+        (kind, argument source).  Both twins must raise TypeError."""
+        pos = [p_ for p_ in params if p_[2] in ("pos", "posonly")]
+        kwo = [p_ for p_ in params if p_[2] == "kwonly"]
+        has_star = any(p_[2] == "star" for p_ in params)
+        has_ss = any(p_[2] == "starstar" for p_ in params)
+        bp = [self.val(p_[1], 1) for p_ in pos]
+        bk = ["%s=%s" % (p_[0], self.val(p_[1], 1)) for p_ in kwo if p_[3] is None]
+        out = []
+        named = [(i, p_) for i, p_ in enumerate(pos) if p_[2] == "pos"]
+        if named:
+            i, p_ = named[0]
+            out.append(("dup-keyword", ", ".join(bp + bk + ["%s=%s" % (p_[0], self.val(p_[1], 1))])))
+            out.append(("dup-star", ", ".join(["*[%s]" % ", ".join(bp)] + bk + ["**{%r: %s}" % (p_[0], self.val(p_[1], 1))])))
+            if len(named) > 1:
+                i2, p2 = named[-1]
+                out.append(("dup-keyword-last", ", ".join(bp + bk + ["%s=%s" % (p2[0], self.val(p2[1], 1))])))
+        req = [i for i, p_ in enumerate(pos) if p_[3] is None]
+        if req:
+            out.append(("missing-positional", ", ".join(bp[: req[-1]] + bk)))
+            if not has_ss or True:
+                out.append(("missing-all", ", ".join(bk)))
+        if not has_star:
+            out.append(("too-many-positional", ", ".join(bp + [self.val(INT, 0)] + bk)))
+        if not has_ss:
+            out.append(("unknown-keyword", ", ".join(bp + bk + ["zz_unknown=1"])))
+        if any(p_[2] == "posonly" for p_ in pos):
+            out.append(("posonly-by-keyword", ", ".join(["%s=%s" % (p_[0], v) for p_, v in zip(pos, bp)] + bk)))
+        reqk = [p_ for p_ in kwo if p_[3] is None]
+        if reqk:
+            out.append(("missing-kwonly", ", ".join(bp + bk[1:])))
+        if kwo and not has_star:
+            # keyword-only parameter passed positionally
+            out.append(("kwonly-positional", ", ".join(bp + [self.val(kwo[0][1], 1)] + bk[1:] if kwo[0][3] is None else bp + [self.val(kwo[0][1], 1)] + bk)))
+        return out
+
     def scenarios(self, per_func: int = 3) -> list[dict]:
         out: list[dict] = []
         self.cur_module = "mb"
@@ -788,6 +873,12 @@ class ProgGen(StmtGen):
             out.append({"id": "s%d" % len(out), "setup": setup, "call": call, "watch": watch, "tag": tag, "fn": fn, "boolint": boolint})
 
         for f in self.funcs:
+            if f.tag == "starunpack":
+                for L in (0, 1, 2, 3, 4, 6):
+                    add(["a0 = [%s]" % ", ".join(str(10 + 7 * k) for k in range(L))], "%s(a0, %r, %s, %d, %r)" % (f.name, "abcdef"[:L] if self.p(0.5) else ",".join("pqrstu"[:L]), "(" + "".join("%d, " % (100 + k) for k in range(L)) + ")", L, "uvwxyz"[:L]), ["a0"], "starunpack", f.name)
+                for kind_, args in self.bad_calls(f.params):
+                    add([], "%s(%s)" % (f.name, args), [], "binding:" + kind_, f.name)
+                continue
             if f.tag == "dispatch":
                 keep = self.cur_module
                 self.cur_module = f.module  # subclasses visible where the function lives, plus later ones below
@@ -819,6 +910,8 @@ class ProgGen(StmtGen):
                     setup = setup + ["clo_ = %s" % call]
                     call = "[clo_(%s), clo_(%s), clo_(%s)]" % (self.val(at, 1), self.val(at, 1), self.val(at, 1))
                 add(setup, call, watch, f.tag, f.name, boolint)
+            for kind_, args in self.bad_calls(f.params):
+                add([], "%s(%s)" % (f.name, args), [], "binding:" + kind_, f.name)
         for cn, c in self.classes.items():
             if c.kind != "native" or c.is_trait or c.is_exc or cn == "Ctx":
                 continue
@@ -826,7 +919,11 @@ class ProgGen(StmtGen):
             add(["o = " + ctor], "o", ["o"], "construct", cn)
             # keyword construction through the interpreted boundary
             add(["o = %s(%s)" % (cn, ", ".join("%s=%s" % (pn, self.val(pt, 2)) for pn, pt in c.init_params))], "o", ["o"], "construct-kw", cn)
+            for kind_, args in self.bad_calls([(pn, pt, "pos", None) for pn, pt in c.init_params]):
+                add([], "%s(%s)" % (cn, args), [], "binding-init:" + kind_, cn)
             for m, sig in self.all_methods(cn).items():
+                for kind_, args in self.bad_calls(sig.params):
+                    add(["o = " + ctor], "o.%s(%s)" % (m, args), ["o"], "binding-method:" + kind_, "%s.%s" % (sig.owner or cn, m))
                 for j in range(2):
                     setup, args, watch = self.driver_args(sig)
                     recv = "o" if sig.kind != "static" or self.p(0.5) else cn
